@@ -30,7 +30,7 @@ MANIFEST = dict(
     technique='TLA+ SeqNum (definitions = P-spec, seqnum.go shapes = I-spec, exact F2 regions) checked by TLC on every operand tuple at M=16/32/64 and by Apalache at M=2^32; the real seqnum API is called at real width on seeded boundary/random vectors and TLC validates every recorded result against the definitions evaluated on 16-bit halves (U32/TraceSeqNum); embedding sweep of the real functions against the TLC-computed table of the small modulus',
     text='For all pairs/triples/quadruples of the small moduli (TLC, exhaustive) and of 0..2^32-1 (Apalache, --length=0): LessThan/LessThanEq differ from "forward distance in 1..2^31-1" exactly on antipodal pairs (F2a), InRange/InWindow/Add/Size/UpdateForward agree everywhere, Overlap differs from "share a sequence number" exactly on F2b. Conformance of the Go functions: every recorded call (base points x deltas, seeded) is accepted by TLC only if the result is the defined one, or the operands lie in an F2 region (reported as KNOWN-FINDING); all tuples of Z_16 (Z_32 thorough) embedded at real width under many translations are compared with the TLC table.',
     design='5 C14',
-    note='Real width is sampled (boundary-structured + seeded random), not enumerated; the for-all at 2^32 is carried by Apalache on the implementation shapes, which are tied to the Go code by the vectors. Share (exists k) is evaluated at 2^32 through ShareW (k in {a, x}), lemma checked by TLC (all tuples, small M) and Apalache. The "consequently every TCP property holds with wrap-adjacent ISS" clause is discharged by tcp_wrap(): the two-stack pair driver with the active opener\'s ISS pinned (hook H4, verified against the SYN on the wire) just below 2^32 and 2^31, random faults plus deterministic scenarios (out-of-order segments parked across the wrap; the receiver\'s window edges straddling the wrap), judged by the C01 + C02 + C04 clauses of TraceTcp. Only the active opener\'s ISS can be pinned; the passive side\'s is random.')
+    note='Real width is sampled (boundary-structured + seeded random), not enumerated; the for-all at 2^32 is carried by Apalache on the implementation shapes, which are tied to the Go code by the vectors. Share (exists k) is evaluated at 2^32 through ShareW (k in {a, x}), lemma checked by TLC (all tuples, small M) and Apalache. The "consequently every TCP property holds with wrap-adjacent ISS" clause is discharged by tcp_wrap(): the two-stack pair driver with the active opener\'s ISS pinned (hook H4, verified against the SYN on the wire) just below 2^32 and 2^31, random faults plus deterministic scenarios (out-of-order segments parked across the wrap; the receiver\'s window edges straddling the wrap), judged by the C01 + C02 + C04 clauses of TraceTcp. Only the active opener\'s ISS can be pinned; the passive side\'s is random. Round 8: segments (data, FIN, the very first byte) that start at exactly sequence number 0 / 2^31, lost and recovered by the retransmission timeout.')
 
 SPEC = ['seqnum']
 P32 = 1 << 32
